@@ -53,7 +53,8 @@ type World struct {
 	Got [][][]byte
 }
 
-var heartbeat atomic.Int64 // watchdog progress counter (wall-clock watchdog lives outside the bubble)
+var heartbeat atomic.Int64   // watchdog progress counter (the watchdog lives outside the bubble)
+var noBeatPhase atomic.Int32 // set by the main goroutine of a run while free-running goroutines under test are at work (C20)
 
 func (w *World) beat() {
 	if w.NoBeat {
